@@ -68,7 +68,10 @@ func buildAgent(c *caseSpec, a *agentSpec, rec *recorder) (ag *react.Agent, err 
 	// the context of NewAgent belongs to the set-up, not to any run: it may carry values of
 	// its own and may be cancelled as soon as NewAgent has returned
 	ctorCtx, ctorDone := ctorContext(ctorKindOf(c))
-	p = mon.Safe(func() { ag, err = react.NewAgent(ctorCtx, cfg) })
+	p = mon.Safe(func() {
+		applyFuture(c, cfg) // workload "future": model / modifier / unknown-tools handler built on graphs
+		ag, err = react.NewAgent(ctorCtx, cfg)
+	})
 	ctorDone()
 	return
 }
@@ -179,12 +182,21 @@ func executeGroup(ag *react.Agent, calls []runCall) ([]*execResult, mon.WaitResu
 		wg.Wait()
 		close(done)
 	}()
+	res, dump, retracted = waitConfirmed(done)
+	if res != mon.Finished {
+		return nil, res, dump, retracted
+	}
+	return rs, res, nil, retracted
+}
+
+// waitConfirmed waits for done with the quiescence monitor.
+// A Stuck verdict must survive 6 examinations in a row. Two things make a single
+// verdict unreliable: (1) a goroutine that waits for a runtime-internal semaphore
+// (GC start, stop-the-world -- also the one taken by the monitor's own goroutine
+// dump) shows the state "semacquire" although hidden runtime goroutines will wake
+// it: such dumps are not counted; (2) plain bad luck under heavy load.
+func waitConfirmed(done <-chan struct{}) (res mon.WaitResult, dump []mon.G, retracted int) {
 	const watchdog = 120 * time.Second
-	// A Stuck verdict must survive 6 examinations in a row. Two things make a single
-	// verdict unreliable: (1) a goroutine that waits for a runtime-internal semaphore
-	// (GC start, stop-the-world -- also the one taken by the monitor's own goroutine
-	// dump) shows the state "semacquire" although hidden runtime goroutines will wake
-	// it: such dumps are not counted; (2) plain bad luck under heavy load.
 	confirmed := 0
 	for try := 0; try < 80; try++ {
 		res, dump = mon.WaitDone(done, watchdog)
@@ -206,10 +218,7 @@ func executeGroup(ag *react.Agent, calls []runCall) ([]*execResult, mon.WaitResu
 	if res == mon.Finished {
 		retracted += confirmed
 	}
-	if res != mon.Finished {
-		return nil, res, dump, retracted
-	}
-	return rs, res, nil, retracted
+	return res, dump, retracted
 }
 
 // execute performs one run.
@@ -243,10 +252,14 @@ func TestCheck(t *testing.T) {
 			"original messages; it is run on TWO agents (default first-chunk checker with contract-conforming chunkings; custom full-scan "+
 			"StreamToolCallChecker with arbitrary chunkings; ChatModel or ToolCallingChatModel wiring), each agent 2-3 times sequentially "+
 			"(Generate and Stream). Every run is compared with a plain ReAct loop simulator (inputs of every model call, tool invocations per round, "+
-			"result, step-limit error) and Generate with concat(Stream). Four workloads by case index: classic (55 %); rd (15 %: marked calls without / with "+
-			"duplicate ids at every position of 1-5 calls, multi-chunk marked tools); ctx (10 %: custom checkers that read their context, constructor context "+
-			"with own values / cancelled); overlap (20 %: 2-4 runs of ONE agent with own inputs and scripts overlapping in time under a PRNG gate order forced "+
-			"inside the model and the tools, each run judged on its own). Non-trivial: the reference executes at least one tool round and both agents "+
+			"result, step-limit error) and Generate with concat(Stream). Six workloads by case index: classic (44 %); rd (12 %: marked calls without / with "+
+			"duplicate ids at every position of 1-5 calls, multi-chunk marked tools); ctx (8 %: custom checkers that read their context, constructor context "+
+			"with own values / cancelled); overlap (16 %: 2-4 runs of ONE agent with own inputs and scripts overlapping in time under a PRNG gate order forced "+
+			"inside the model and the tools, each run judged on its own); future (12 %: runs with react.WithMessageFuture; tools / model / modifier built on graphs, chains, workflows, "+
+			"other agents run with the inherited context; the future read fully / partly / not at all, output closed early; answer = reference, messages of the future = "+
+			"assistant and tool messages of the run, process quiescent afterwards); resume (8 %: the exported graph of the ReAct agent / of the host multi-agent nested in a parent "+
+			"graph with a byte-only checkpoint store, interrupted before / after its nodes or by tools / models asking for InterruptAndRerun, resumed with Invoke and Stream in "+
+			"every combination; every interrupt extractable, model inputs and answer = reference). Non-trivial: the reference executes at least one tool round and both agents "+
 			"completed a Generate and a Stream run (overlap: at least two runs with a tool round, all runs completed); distinct = distinct case specs.",
 		[]string{
 			"schema.ConcatMessages is trusted to rebuild the observed result stream (property C14 checks it); expected values never pass through it",
@@ -273,7 +286,15 @@ func TestCheck(t *testing.T) {
 	rep.Require("overlap_groups_judged", 10)
 	rep.Require("overlap_gate_switches", 50)
 
-	n := int64(cfg.Pick(1200, 10000)) // cases per shard
+	rep.Require("future_runs_with_option", 50)
+	rep.Require("future_messages_compared", 100)
+	rep.Require("future_leak_checks_settled", 50)
+	rep.Require("future_runs_output_closed_early", 10)
+	rep.Require("resume_histories_with_interrupt", 20)
+	rep.Require("resume_interrupts_extracted", 50)
+	rep.Require("resume_histories_host", 5)
+
+	n := int64(cfg.Pick(1500, 10000)) // cases per shard
 	rep.Cases(n, func(idx int64, rng *mon.Rand) {
 		if hangsSeen >= 8 {
 			// every hang leaves goroutines behind and costs several quiescence proofs; the
@@ -285,17 +306,21 @@ func TestCheck(t *testing.T) {
 		kind := "classic"
 		defer func() { rep.Count("wall_ms_"+kind, time.Since(t0).Milliseconds()) }() // evidence only
 		var c *caseSpec
-		switch k := idx % 20; {
+		switch k := idx % 25; {
 		case k < 11:
 			c = generate(rng)
 		case k < 14:
 			c = generateRD(rng)
 		case k < 16:
 			c = generateCtx(rng)
-		default:
+		case k < 20:
 			c = generateOverlap(rng)
+		case k < 23:
+			c = generateFuture(rng)
+		default:
+			c = generateResume(rng)
 		}
-		if idx < 2 || (idx >= 11 && idx <= 19 && idx%2 == 1) {
+		if idx < 2 || (idx >= 11 && idx <= 24 && idx%2 == 1) {
 			rep.Sample(c)
 		}
 		if c.Kind != "" {
@@ -310,6 +335,18 @@ func TestCheck(t *testing.T) {
 		}
 		if c.Kind == "overlap" {
 			if runOverlap(rep, c) {
+				rep.NonTrivial(c.digest())
+			}
+			return
+		}
+		if c.Kind == "future" {
+			if runFuture(rep, c) {
+				rep.NonTrivial(c.digest())
+			}
+			return
+		}
+		if c.Kind == "resume" {
+			if runResume(rep, c) {
 				rep.NonTrivial(c.digest())
 			}
 			return
